@@ -481,6 +481,44 @@ def loop_form(fn: FunctionInfo) -> FunctionInfo:
     return out
 
 
+def read_through_field_aliases(prog, fn_node: ast.AST) -> ast.AST:
+    """A private copy of the function in which a local that was handed to a dataclass constructor as the value of
+    a field is read, after that statement, as the field of the constructed object:
+        g = SCFG(..); r = RegionBlock(.., subregion=g, ..); object.__setattr__(g, "region", r)
+            ->  .. object.__setattr__(r.subregion, "region", r)
+    Both locals are bound once in the function; the class is a dataclass of the package that has the field."""
+    node = _deep_clone(fn_node)
+    stores: Dict[str, int] = {}
+    for n in ast.walk(node):
+        if isinstance(n, ast.Name) and isinstance(n.ctx, (ast.Store, ast.Del)):
+            stores[n.id] = stores.get(n.id, 0) + 1
+    body = getattr(node, "body", [])
+    for i, st in enumerate(body):
+        if not (isinstance(st, ast.Assign) and len(st.targets) == 1 and isinstance(st.targets[0], ast.Name) and isinstance(st.value, ast.Call)):
+            continue
+        r = st.targets[0].id
+        cname = (A.dotted(st.value.func) or "").split(".")[-1]
+        ci = prog.classes.get(cname) if hasattr(prog, "classes") else None
+        if ci is None or stores.get(r, 0) != 1:
+            continue
+        fnames = {f.name for f in ci.fields()}
+        for kw in st.value.keywords:
+            if kw.arg in fnames and isinstance(kw.value, ast.Name) and stores.get(kw.value.id, 0) == 1:
+                alias = kw.value.id
+
+                class _S(ast.NodeTransformer):
+                    def visit_Name(self, n: ast.Name):
+                        if n.id == alias and isinstance(n.ctx, ast.Load):
+                            return ast.copy_location(ast.Attribute(value=ast.Name(id=r, ctx=ast.Load()), attr=kw.arg, ctx=ast.Load()), n)
+                        return n
+
+                for j in range(i + 1, len(body)):
+                    body[j] = _S().visit(body[j])
+    ast.fix_missing_locations(node)
+    A.set_parents(node)
+    return node
+
+
 def expanded_function(fn: FunctionInfo) -> ast.AST:
     """A private copy of the function in which locals that merely name a selector expression are read
     through: `offset, opname = inst.offset, inst.opname`, `targets = b.jump_targets`, `t = self.table[k]`.
